@@ -3,3 +3,4 @@ pub mod elem;
 pub mod model;
 pub mod props;
 pub mod runner;
+pub mod thin;
